@@ -182,7 +182,7 @@ Definition accept_core (sx : ast) (e : list Z) : option ast :=
     | 21 => fin s (atp PLoad && tail_is s x v) [PStep p 0%nat] yes same
     | 22 => fin s (atp PCas) [PStep p 0%nat] (fun s' => Bool.eqb (ppc_eqb (pp (P s' p)) PWrite) (znz v)) same
     | 23 => fin s (atp PWrite && zn (li me) v) [PStep p 0%nat] yes same
-    | 24 => fin s (atp PReady) [PStep p 0%nat] yes same
+    | 24 => fin s (atp PReady && Z.eqb v 1) [PStep p 0%nat] yes same
     | 25 | 26 =>
         if atc CNext
         then fin s true [CStep]
